@@ -4,9 +4,16 @@ specs/Receive.tla      demultiplexing / cell pre-processing / handler dispatch a
                        every byte string of a scaled-down instance x listener layouts; table operations)
 specs/WireStrict.tla   strict decoder of the length-prefixed / nested / array formats (model checked: every byte
                        string up to MaxLen for 14 format lists; ReEncode, EndInside, NoSilentTruncation)
+                       + the circuit tables as state (RemoveTun / Tick / Sweep: relay routes and rendezvous links
+                       are installed in pairs and removed one by one) and the exit socket's own receive path
+                       (ExitReceive: DataChecker / is_allowed / tunnel_data) - Receive_tables.cfg
 binding T              real overlays on a real UDPEndpoint (recording transport) are fed through
                        UDPEndpoint.datagram_received; every table operation and every delivery is logged and
                        TLC validates the log against Receive.tla with the real constants (ReceiveTrace.tla);
+                       history families: the real node's own remove_relay / remove_circuit / remove_exit_socket,
+                       its clock and its periodic do_circuits -> do_remove are run between batteries of cells;
+                       datagrams from the outside enter through TunnelProtocol.datagram_received of the exit
+                       socket's (recording) UDP sockets;
                        every decode of the real Serializer is logged and validated against WireStrict.tla.
 """
 from __future__ import annotations
@@ -25,6 +32,7 @@ from ..tlc import run_tlc as _run_tlc
 
 PID = "C03"
 SEG = 1500          # deliveries per trace segment (segments are validated in parallel by TLC)
+TABLE_OPS = ("tables", "install", "tick", "sweep", "rmtun")     # events that carry a snapshot of the circuit tables
 
 
 def run_tlc(*a, **k):
@@ -35,7 +43,7 @@ def run_tlc(*a, **k):
     return r
 
 
-_BAD = re.compile(r'<<"C03BAD", (\d+), (\d+), "([a-z-]+)">>')
+_BAD = re.compile(r'<<"C03BAD", (\d+), (\d+), "([a-z-]+)">>')     # reasons: raised unserved isolation table nosocket
 _DRIFT = re.compile(r'<<"C03DRIFT", (\d+), (\d+)>>')
 
 
@@ -66,6 +74,156 @@ class Rx:
         if w.tunnel is not None:
             w.install_tunnel_state()
         return w
+
+    # ---------------------------------------------------------------- history: table actions between batteries
+    def battery(self, w, rng, full=False):
+        """cells for every circuit id class in the CURRENT tables: short / garbage bodies and bodies sealed with the
+        far ends' keys (what a peer that still holds the session keys sends after this node dropped an entry)"""
+        cids = {"unknown": 0x55667788}
+        cids.update({k: v[0] for k, v in w.far.items()})
+        for length in ((29, 33) if not full else (22, 28, 29, 30, 31, 36, 53)):
+            for cid in cids.values():
+                for plain in (False, True):
+                    for early in (False, True):
+                        for first in ((1, 4) if length > 29 and full else (rng.choice((1, 2, 4)),)):
+                            body = bytes([first]) + bytes(rng.getrandbits(8) for _ in range(30))
+                            w.recv(w.cell(cid, body, plain, early)[:length], enc="garbage" if length > 29 else "none")
+        for which in w.far:
+            if which == "relay_bwd":
+                continue
+            for inner in (b"", b"\x01abc", b"\x05" + struct.pack("!IH", 0x01020304, 7)):
+                for early in (False, True):
+                    cid, body = w.sealed(which, inner)
+                    w.recv(w.cell(cid, body, False, early), enc="valid", inner=inner)
+
+    def keepalive(self, w, names):
+        """one authentic cell on each of the named circuit ids (the beat goes to the OPPOSITE route / the circuit)"""
+        for which in names:
+            if w.present(which):
+                inner = b"\x05" + struct.pack("!IH", 0x01020304, 7)
+                if which == "relay_bwd":
+                    cid, body = w.far[which][0], b"opaque-opaque-opaque-opaque-"
+                    w.recv(w.cell(cid, body), enc="garbage")
+                else:
+                    cid, body = w.sealed(which, inner)
+                    w.recv(w.cell(cid, body, False, True), enc="valid", inner=inner)
+
+    def exit_battery(self, w, rng, quick, lengths=range(41)):
+        """datagrams from the outside world at the UDP sockets of every enabled exit socket"""
+        own = w.tunnel.get_prefix()
+        pats = [b"\x00" * 64, b"\xff" * 64,
+                b"\x00\x00\x04\x17\x27\x10\x19\x80" + b"\x00\x00\x00\x00" + b"\x12\x34\x56\x78" * 8,   # tracker connect
+                b"\x12\x34\x56\x78\x9a\xbc\xde\xf0" + b"\x00\x00\x00\x02" + b"\x00" * 40,               # action at 8
+                b"d1:ad2:id20:abcdefghij0123456789e1:q4:ping1:t2:aa1:y1:qe",                                  # DHT query
+                b"\x01\x00" + b"\x11" * 40, b"\x41\x03" + b"\x22" * 40, b"\x51\x00" + b"\x22" * 40,           # uTP
+                own + b"\x01" + b"\x33" * 40, b"\x00\x02" + b"\x44" * 60, b"\x00\x01" + b"\x44" * 60]           # IPv8
+        n = 0
+        for cid in list(w.exit_protocols):
+            if not w.tunnel.crypto_endpoint.exit_sockets.get(cid) or cid not in w.exit_protocols:
+                continue
+            if w.tunnel.crypto_endpoint.exit_sockets[cid].transport_ipv4 is None:
+                continue
+            for length in lengths:
+                for i, pat in enumerate(pats):
+                    d = pat[:length]
+                    if len(d) < length and not quick:
+                        d = d + b"e" * (length - len(d))
+                    elif len(d) < length:
+                        continue
+                    fam = "v4" if (length + i) % 5 else ("v6", "v6mapped")[(length + i) % 2]
+                    w.xrecv(cid, d, fam)
+                    n += 1
+                w.xrecv(cid, bytes(rng.getrandbits(8) for _ in range(length)))
+                w.xrecv(cid, b"d" + bytes(rng.getrandbits(8) for _ in range(max(0, length - 2))) + b"e")
+            for big in (200, 1400, 1500):
+                w.xrecv(cid, own + b"\x01" + bytes(rng.getrandbits(8) for _ in range(big - 23)))
+                w.xrecv(cid, bytes(rng.getrandbits(8) for _ in range(big)))
+        return n
+
+    def history(self, w, rng, family, quick):
+        """run the node's own table actions between batteries; every action and every delivery is one trace event"""
+        t0 = time.perf_counter()
+        w.tunnel.cancel_pending_task("do_circuits")     # the periodic callback is called by the script ("sweep")
+        n0 = len(w.events)
+        sides = [("relay_fwd", "rdv_a", "circuit"), ("relay_bwd", "rdv_b", "circuit2")]
+        if family == "timeouts":
+            # time passes while only one side of every pair / link talks; the node's own maintenance runs
+            self.exit_battery(w, rng, quick)
+            for talk in sides + ([("relay_fwd", "rdv_b")] if not quick else []):
+                w.install_tunnel_state("install")
+                self.battery(w, rng)
+                w.tun_op("tick")
+                self.keepalive(w, talk)
+                w.tun_op("sweep")
+                self.battery(w, rng, full=not quick)
+                self.exit_battery(w, rng, quick, lengths=(0, 9, 12, 24))
+                w.tun_op("tick")
+                w.tun_op("sweep")
+                self.battery(w, rng)
+        elif family == "removals":
+            # every entry removed on its own (remove_relay on destroy / errors, remove_circuit, remove_exit_socket)
+            for which in w.ENTRY:
+                w.install_tunnel_state("install")
+                w.tun_op("rmtun", which)
+                self.battery(w, rng, full=not quick)
+                self.exit_battery(w, rng, quick, lengths=(0, 8, 11, 12, 23))
+        else:
+            # seeded walk over the table actions
+            w.install_tunnel_state("install")
+            since_fresh = 0
+            for _ in range(8 if quick else 60):
+                k = rng.randrange(6)
+                left = [x for x in w.ENTRY if w.present(x)]
+                if not left or since_fresh >= 3:
+                    w.install_tunnel_state("install")
+                    since_fresh = 0
+                elif k == 0:
+                    w.tun_op("tick")
+                    self.keepalive(w, rng.sample(left, rng.randrange(len(left) + 1)))
+                    since_fresh = 0
+                elif k == 1:
+                    w.tun_op("sweep")
+                    since_fresh += 1
+                elif k in (2, 3):
+                    w.tun_op("rmtun", rng.choice(left))
+                    since_fresh += 1
+                elif k == 4:
+                    self.exit_battery(w, rng, quick, lengths=(rng.randrange(0, 30), 9, 12))
+                    continue
+                self.battery(w, rng)
+        evs = w.events[n0:]
+        self.ctx.note("history_%s_%s" % (family, "+".join(w.names)),
+                      {"table_actions": sum(1 for e in evs if e["op"] in ("tick", "sweep", "rmtun")),
+                       "deliveries": sum(1 for e in evs if e["op"] == "recv"),
+                       "exit_socket_datagrams": sum(1 for e in evs if e["op"] == "xrecv"),
+                       "wall_s": round(time.perf_counter() - t0, 2)})
+
+    def history_vacuity(self):
+        """the recorded history traces must contain what the new spec parts are about"""
+        half = rdv = fwd = drop = 0
+        for seg in self.segments:
+            if not seg.get("family"):
+                continue
+            relays = {}
+            tp = next(d["prefix"] for d in seg["desc"] if d["priv"])
+            for e in seg["events"]:
+                if e["op"] in TABLE_OPS:
+                    relays = {tuple(r["cid"]): r for r in e["relays"]}
+                elif e["op"] == "recv" and e["len"] >= 29 and e["head"][:23] == tp + [0]:
+                    r = relays.get(tuple(e["head"][23:27]))
+                    if r is not None and tuple(r["to"]) not in relays and not e["head"][27]:
+                        half += not r["rdv"] and (r["dir"] == "bwd" or e["enc"] == "valid")
+                        rdv += bool(r["rdv"] and e["enc"] == "valid")
+                elif e["op"] == "xrecv":
+                    fwd += e["fwd"]
+                    drop += 1 - e["fwd"]
+        got = {"relayable_cells_on_a_route_whose_opposite_is_gone": half,
+               "authentic_cells_on_a_rendezvous_link_whose_other_half_is_gone": rdv,
+               "exit_socket_datagrams_forwarded": fwd, "exit_socket_datagrams_dropped": drop}
+        self.ctx.note("history_witnesses", got)
+        for k, v in got.items():
+            if not v:
+                raise MachineryError("history traces are vacuous: no %s" % k.replace("_", " "))
 
     # ---------------------------------------------------------------- inputs
     def prefixes(self, w, rng):
@@ -103,6 +261,8 @@ class Rx:
         firsts = [1, 2, 3, 4, 5, 0, 255] if not quick else [1, 2, 4, 0]
         for length in range(22, 41):
             for name, cid in cids.items():
+                if quick and name.startswith("rdv") and length not in (22, 28, 29, 30, 31, 40):
+                    continue      # (the rendezvous link has batteries of its own in the history families)
                 for plain in (False, True):
                     for early in (False, True):
                         for first in (firsts if length > 29 else firsts[:1]):
@@ -164,6 +324,8 @@ class Rx:
             w.recv(data, **kw)
         for data, kw in self.cells(w, rng, quick):
             w.recv(data, **kw)
+        if w.tunnel is not None:
+            self.exit_battery(w, rng, quick, lengths=range(0, 41, 3 if quick else 1))
         captured = self.corpus(w, peer) if peer is not None else []
         for i, d in enumerate(captured):
             cuts = range(len(d) + 1) if (not quick or i % 3 == 0) else sorted({0, 21, 22, 23, 29, 30, len(d) - 1, len(d)})
@@ -205,21 +367,21 @@ class Rx:
         rest = []
         state = None
         for ev in w.events:
-            if not rest and ev["op"] != "recv":
+            if not rest and ev["op"] not in ("recv", "xrecv"):
                 setup.append(ev)
             else:
                 rest.append(ev)
-        seg, tables = [], [e for e in setup if e["op"] == "tables"][-1:]  # last known tables
-        setup_nt = [e for e in setup if e["op"] != "tables"]
+        seg, tables = [], [e for e in setup if e["op"] in TABLE_OPS][-1:]  # last known tables
+        setup_nt = [e for e in setup if e["op"] not in TABLE_OPS]
         cur_tables = tables[0] if tables else None
         segs = []
         for ev in rest:
-            if ev["op"] == "tables":
+            if ev["op"] in TABLE_OPS:
                 cur_tables = ev
             if not seg:
                 state = cur_tables
             seg.append(ev)
-            if sum(1 for e in seg if e["op"] == "recv") >= SEG:
+            if sum(1 for e in seg if e["op"] in ("recv", "xrecv")) >= getattr(w, "seg", SEG):
                 segs.append((state, seg))
                 seg = []
         if seg:
@@ -231,12 +393,15 @@ class Rx:
             head = list(setup_nt)
             if state is not None:
                 st = json.loads(json.dumps(state))
+                st["op"] = "install"       # (a snapshot, not the action that produced it)
                 for r in st["relays"]:
                     if tuple(r["cid"]) in counts:
                         r["count"] = counts[tuple(r["cid"])]
                 head.append(st)
             mine.append({"chain": w.chain, "overlays": w.names, "desc": desc, "events": head + seg})
-            self.n_recv += sum(1 for e in seg if e["op"] == "recv")
+            if getattr(w, "family", None):
+                mine[-1]["family"] = w.family
+            self.n_recv += sum(1 for e in seg if e["op"] in ("recv", "xrecv"))
         self.segments += mine
         return mine
 
@@ -250,7 +415,9 @@ class Rx:
                 counts = {tuple(r["cid"]): r["count"] for r in state["relays"]}
             out.append(dict(counts))
             for ev in seg:
-                if ev["op"] == "tables":
+                if ev["op"] in TABLE_OPS:
+                    if ev["op"] != "tables":
+                        counts = {}
                     for r in ev["relays"]:
                         counts[tuple(r["cid"])] = r["count"]
                 elif ev["op"] == "recv" and any(r["rel"] for r in ev["log"]) and ev["len"] >= 27:
@@ -269,12 +436,19 @@ class Rx:
             r = run_tlc("ReceiveTrace.tla", "ReceiveTrace.cfg", env={"TRACE_FILE": path}, coverage=False, workers=4)
             if expect_reject:
                 return r, [], 0
+            if r.ok and r.depth != max(len(sg["events"]) for sg in segments) + 1:
+                # an event whose action is not enabled ends the behaviour silently: that is no acceptance
+                raise MachineryError("ReceiveTrace stopped before the end of a trace (depth %s, longest trace %d events)"
+                                     % (r.depth, max(len(sg["events"]) for sg in segments)))
             bads, drift = [], len(_DRIFT.findall(r.output))
             if not r.ok:
                 d = run_tlc("ReceiveTrace.tla", "ReceiveTraceDiag.cfg", env={"TRACE_FILE": path}, coverage=False,
                             workers=4)
                 bads = [(int(a), int(b), c) for a, b, c in _BAD.findall(d.output)]
                 drift = len(_DRIFT.findall(d.output))
+                if any(c == "nosocket" for _a, _b, c in bads):
+                    raise MachineryError("the recorded trace has a datagram at an exit socket the recorded tables do "
+                                         "not hold (trace %d event %d)" % next((a, b) for a, b, c in bads if c == "nosocket"))
                 if not bads and r.violated != "TraceAccepted":
                     raise MachineryError("ReceiveTrace: invariant %s violated on recorded traces" % r.violated)
                 if not bads:
@@ -283,8 +457,23 @@ class Rx:
         finally:
             shutil.rmtree(tmp, ignore_errors=True)
 
+    def rejected_tids(self, segments):
+        """several corrupted traces in one TLC run: -> the trace ids TLC reports a verdict for"""
+        tmp = scratch_dir("c03c-")
+        try:
+            path = os.path.join(tmp, "traces.json")
+            with open(path, "w", encoding="utf-8") as f:
+                json.dump(segments, f, separators=(",", ":"))
+            r = run_tlc("ReceiveTrace.tla", "ReceiveTrace.cfg", env={"TRACE_FILE": path}, coverage=False, workers=4,
+                        continue_=True)
+            return {int(a) for a, _b, _c in _BAD.findall(r.output)} if not r.ok else set()
+        finally:
+            shutil.rmtree(tmp, ignore_errors=True)
+
     def rejects(self, segments):
-        return not self.tlc_validate(segments, True)[0].ok
+        """not accepted: an invariant fails, or the behaviour cannot go on (an event whose action is not enabled)"""
+        r = self.tlc_validate(segments, True)[0]
+        return not r.ok or r.depth != max(len(sg["events"]) for sg in segments) + 1
 
     def apply_done(self, tag, wait=False):
         """take over the results of finished validations and release their traces (memory)"""
@@ -324,7 +513,11 @@ class Rx:
             groups.setdefault(sig, []).append((seg, ev, why))
         for sig, items in sorted(groups.items()):
             seg, ev, why = min(items, key=lambda x: x[1].get("len", 0))
-            if why == "raised":
+            if why == "raised" and ev["op"] == "xrecv":
+                desc = ("TunnelExitSocket.datagram_received lets %s escape to the transport of the exit socket for a "
+                        "%d-byte datagram %s from the outside (%d such deliveries)" % (
+                            ev.get("x"), ev["len"], ev.get("hex", "")[:80], len(items)))
+            elif why == "raised":
                 desc = ("notify_listeners lets %s escape to the transport for a %d-byte datagram %s (%d such deliveries); "
                         "listeners after the failing one are not served" % (ev.get("x"), ev["len"], ev.get("hex", "")[:80],
                                                                              len(items)))
@@ -334,9 +527,15 @@ class Rx:
                 desc = "a handler ran for a datagram whose first 22 bytes are not its overlay's prefix: %s" % ev["log"]
             else:
                 desc = "listener table diverges from Receive.tla after %s" % ev["op"]
-            self.ctx.violation(sig, desc, {"kind": "recv", "chain": seg["chain"], "overlays": seg["overlays"],
-                                           "event": {k: v for k, v in ev.items() if k != "head"},
-                                           "count": len(items)})
+            rep = {"kind": "recv", "chain": seg["chain"], "overlays": seg["overlays"],
+                   "event": {k: v for k, v in ev.items() if k != "head"}, "count": len(items)}
+            if "family" in seg:
+                # the table actions that led to the state in which the datagram arrived
+                k = seg["events"].index(ev)
+                rep["history"] = [{kk: e[kk] for kk in ("op", "t", "cid") if kk in e} for e in seg["events"][:k]
+                                  if e["op"] in ("install", "tick", "sweep", "rmtun")][-8:]
+                rep["family"], rep["seed"], rep["tier"] = seg["family"], self.seed, self.tier
+            self.ctx.violation(sig, desc, rep)
 
 
 # =====================================================================================================
@@ -524,6 +723,8 @@ class SpecRuns:
              self.go("ReceiveMC.tla", "Receive_bytes_quick.cfg" if quick else "Receive_bytes.cfg", workers=big)),
             ("receive_layout", {"DoAdd", "DoAddPrefix", "DoRemove", "DoSetOpen", "DoReceive"},
              self.go("ReceiveMC.tla", "Receive_layout.cfg" if quick else "Receive_layout_deep.cfg", workers=big)),
+            ("receive_tables", {"DoRemoveTun", "DoTick", "DoSweep", "TReceive", "TExitReceive"},
+             self.go("ReceiveMC.tla", "Receive_tables.cfg" if quick else "Receive_tables_deep.cfg", workers=small)),
             ("wirestrict", {"Grow", "Cut"},
              self.go("WireStrictMC.tla", "WireStrict_mc_quick.cfg" if quick else "WireStrict_mc.cfg", workers=big,
                      java_opts=xss))]
@@ -532,6 +733,18 @@ class SpecRuns:
              self.go("ReceiveMC.tla", "Receive_witness.cfg", coverage=False, workers=small)),
             ("WireStrict_witness: the strict decoder never accepts anything", "SometimesOk",
              self.go("WireStrictMC.tla", "WireStrict_witness.cfg", coverage=False, workers=small, java_opts=xss))]
+        # one -continue run of the tables instance with the deviations switched on ({"pair", "exit"} and {"rdv"} as two
+        # sets of initial states): every listed "never" statement (witness) and every per-deviation Total (negative
+        # control) must be reported as violated
+        self.ctl = [self.go("ReceiveMC.tla", "Receive_tables_ctl.cfg", coverage=False, workers=small, continue_=True)]
+        self.ctl_witness = {"NeverHalfRelayed", "NeverHalfRdv", "NeverExitForwarded", "NeverExitDropped"}
+        self.ctl_controls = [
+            ("Receive.tla with process_cell indexing the opposite relay route (\"pair\") violates Total after Tick / Sweep",
+             "TotalPair"),
+            ("Receive.tla with relay_cell indexing the other half of a rendezvous link (\"rdv\", the pinned tree) "
+             "violates Total after Tick / Sweep", "TotalRdv"),
+            ("Receive.tla with DataChecker reading the second tracker field unchecked (\"exit\") violates Total",
+             "TotalExit")]
         self.controls = [
             ("Receive.tla with the pinned unchecked reads violates Total", "Total",
              self.go("ReceiveMC.tla", "Receive_pinned.cfg", coverage=False, workers=small)),
@@ -557,6 +770,14 @@ class SpecRuns:
         for what, inv, fut in self.witness:
             if fut.result().violated != inv:
                 raise MachineryError(what + " (vacuous model)")
+        got = set()
+        for fut in self.ctl:
+            got |= set(re.findall(r"Invariant (\S+) is violated", fut.result().output))
+        if not self.ctl_witness <= got:
+            raise MachineryError("Receive_tables: never reached by Tick / Sweep alone: %s (vacuous model)"
+                                 % sorted(self.ctl_witness - got))
+        for what, inv in self.ctl_controls:
+            ctx.control(what, inv in got)
         for what, inv, fut in self.controls:
             ctx.control(what, fut.result().violated == inv)
         self.pool.shutdown()
@@ -575,12 +796,27 @@ def trace_controls(rx, dx, pool):
             d = seg["desc"][d["comm"] - 1]
         return d["prefix"], d
 
-    jobs = []
+    def cut(seg, k):
+        seg = copy_of(seg)
+        seg["events"] = seg["events"][:k + 1]
+        return seg
+
+    class Pick:
+        """one trace of a batch of corrupted traces validated in a single TLC run"""
+
+        def __init__(self, fut, tid):
+            self.fut, self.tid = fut, tid
+
+        def result(self):
+            return self.tid in self.fut.result()
+
+    jobs, batch = [], []      # batch: corrupted receive traces, each ends with the corrupted event
     # (1) a delivery that let an exception through
-    seg = copy_of(rx.segments[0])
-    evs = [e for e in seg["events"] if e["op"] == "recv" and e["log"]]
-    evs[len(evs) // 2]["raised"] = True
-    jobs.append(("receive trace in which an exception reaches the transport is rejected", rx.rejects, [seg]))
+    seg = rx.segments[0]
+    evs = [i for i, e in enumerate(seg["events"]) if e["op"] == "recv" and e["log"]]
+    seg = cut(seg, evs[len(evs) // 2])
+    seg["events"][-1]["raised"] = True
+    batch.append(("receive trace in which an exception reaches the transport is rejected", seg))
     # (2) a handler entered for a datagram with another prefix
     seg = ev = rec = None
     for cand in rx.segments:
@@ -597,15 +833,52 @@ def trace_controls(rx, dx, pool):
     if seg is None:
         raise MachineryError("no delivery to a listener with a different prefix recorded: isolation control impossible")
     k = seg["events"].index(ev)
-    seg = copy_of(seg)
+    seg = cut(seg, k)
     _p, d = owner_prefix(seg, seg["events"][k]["log"][rec]["l"])
     seg["events"][k]["log"][rec]["h"].append(["h", (d["handlers"] or [1])[0]])
-    jobs.append(("receive trace with a handler entered for a foreign prefix is rejected", rx.rejects, [seg]))
+    batch.append(("receive trace with a handler entered for a foreign prefix is rejected", seg))
     # (3) a registered listener skipped
-    seg = copy_of(rx.segments[0])
-    ev = next(e for e in seg["events"] if e["op"] == "recv" and e["via"] == "udp" and e["log"] and e["len"] >= 22)
-    ev["log"] = []
-    jobs.append(("receive trace in which a registered listener is not served is rejected", rx.rejects, [seg]))
+    seg = rx.segments[0]
+    seg = cut(seg, next(i for i, e in enumerate(seg["events"])
+                        if e["op"] == "recv" and e["via"] == "udp" and e["log"] and e["len"] >= 22))
+    seg["events"][-1]["log"] = []
+    batch.append(("receive trace in which a registered listener is not served is rejected", seg))
+    # (6, 7, 8) history: an exit-socket datagram that raised; one for an exit socket the node has removed; a cell on
+    # a relay route whose opposite route is gone that raised
+    hist = [sg for sg in rx.segments if sg.get("family")]
+    seg, k = next(((sg, i) for sg in hist for i, e in enumerate(sg["events"]) if e["op"] == "xrecv" and e["len"] > 30),
+                  (None, None))
+    if seg is None:
+        raise MachineryError("no exit-socket datagram recorded: control impossible")
+    bad = cut(seg, k)
+    bad["events"][k]["raised"] = True
+    batch.append(("trace in which a datagram at an exit socket lets an exception reach its transport is rejected", bad))
+    seg, k = next(((sg, i) for sg in hist for i, e in enumerate(sg["events"])
+                   if e["op"] == "rmtun" and e["t"] == "x"), (None, None))
+    if seg is None:
+        raise MachineryError("no remove_exit_socket recorded: control impossible")
+    bad = cut(seg, k)
+    bad["events"].append(next(copy_of(e) for e in seg["events"] if e["op"] == "xrecv"))
+    batch.append(("trace with a datagram at the socket of an exit socket that the node has removed is rejected", bad))
+    found = None
+    for sg in hist:
+        relays = {}
+        for i, e in enumerate(sg["events"]):
+            if e["op"] in TABLE_OPS:
+                relays = {tuple(r["cid"]): r for r in e["relays"]}
+            elif e["op"] == "recv" and e["len"] >= 29 and e["log"] and not e["head"][27]:
+                r = relays.get(tuple(e["head"][23:27]))
+                if r is not None and tuple(r["to"]) not in relays and r["dir"] == "bwd":
+                    found = (sg, i)
+                    break
+        if found:
+            break
+    if not found:
+        raise MachineryError("no cell on a backward route whose opposite is gone: control impossible")
+    bad = cut(*found)
+    bad["events"][found[1]]["raised"] = True
+    bad["events"][found[1]]["log"] = [dict(bad["events"][found[1]]["log"][0], rel=0, raised=True)]
+    batch.append(("trace in which a cell for a relay route whose opposite route was removed raises is rejected", bad))
     # (4, 5) decodes: an over-read accepted, a part that has not its declared length
     X, w = dx.X, dx.wire
     items = w.items_of(["varlenH", "raw"])
@@ -616,7 +889,9 @@ def trace_controls(rx, dx, pool):
     short = dict(good, v=[[X.S("var", b=b"a"), X.S("var", b=b"b")]])
     jobs.append(("decode trace whose length-prefixed part has not its declared length is rejected",
                  dx.rejects, [good, short]))
-    return [(name, pool.submit(fn, arg)) for name, fn, arg in jobs]
+    fut = pool.submit(rx.rejected_tids, [sg for _n, sg in batch])
+    return ([(name, Pick(fut, i + 1)) for i, (name, _sg) in enumerate(batch)]
+            + [(name, pool.submit(fn, arg)) for name, fn, arg in jobs])
 
 
 def do_replay(path):
@@ -639,8 +914,23 @@ def do_replay(path):
         return 1 if new["ok"] else 0
     ctx = Ctx(PID, "quick", 0, "model_checking")
     rx = Rx(ctx, "quick", 0)
-    names = [n for n in rep["overlays"] if n in rx.W.OVERLAYS] or ["PlainCommunity", "TunnelCommunity"]
+    names = [n for n in rep["overlays"] if n.split("+")[0] in rx.W.OVERLAYS] or ["PlainCommunity", "TunnelCommunity"]
+    if rep.get("family"):
+        # the state in which the datagram arrived is the result of the family's table actions: run them again
+        rx = Rx(ctx, rep.get("tier", "quick"), rep.get("seed", 0))
+        w = rx.world(rep["chain"], names)
+        w.family = rep["family"]
+        rx.history(w, random.Random("%s-%s" % (rx.seed, w.family)), w.family, rx.tier == "quick")
+        bad = [e for e in w.events if e["op"] in ("recv", "xrecv") and (e["raised"] or any(r["raised"] for r in e.get("log", ())))]
+        print("replayed family %s: %d deliveries raised%s" % (w.family, len(bad), "".join(
+            "\n  %s %s" % (e["op"], {k: v for k, v in e.items() if k in ("x", "len", "hex")}) for e in bad[:5])))
+        return 1 if bad else 0
     w = rx.world(rep["chain"], names)
+    if rep["event"].get("op") == "xrecv":
+        cid = struct.unpack("!I", bytes(rep["event"]["xc"]))[0]
+        ev = w.xrecv(cid, bytes.fromhex(rep["event"]["hex"]), rep["event"]["fam"]) if "hex" in rep["event"] else None
+        print("replayed: %s" % ({k: v for k, v in (ev or {}).items() if k != "head"},))
+        return 1 if ev and ev["raised"] else 0
     ev = w.recv(bytes.fromhex(rep["event"]["hex"])) if "hex" in rep["event"] else None
     print("replayed: %s" % ({k: v for k, v in (ev or {}).items() if k != "head"},))
     return 1 if ev and (ev["raised"] or any(r["raised"] for r in ev["log"])) else 0
@@ -657,6 +947,10 @@ def run(tier, seed, replay=None):
                        "(b) every byte string up to 5/7 bytes for 14 format lists of the strict decoder; the real code "
                        "is driven with all lengths 0..64 x prefix classes x message ids, all 256 ids, cells 22..40 x "
                        "flags x circuit classes x sealed/garbage bodies, every truncation of captured datagrams, "
+                       "(c) every sequence of RemoveTun / Tick / Sweep over a relay pair, a rendezvous link, a circuit "
+                       "and an exit socket with every cell in between, every exit-socket datagram of a 13-position "
+                       "alphabet; history families on the real node (timeouts / single removals / seeded walk) with "
+                       "cell batteries in every table state, exit-socket datagrams of all lengths 0..40 x 13 shapes, "
                        "seeded samples <= 1500 bytes, and every truncation / length edit of valid encodings of every "
                        "Serializable; each delivery / decode is one TLC-validated event; non-trivial = distinct "
                        "accepted decodes + distinct (world, datagram) deliveries")
@@ -672,8 +966,8 @@ def run(tier, seed, replay=None):
     rx = Rx(ctx, tier, seed)
     rng = random.Random(seed)
     if quick:
-        # (behind a StatisticsEndpoint only the first overlay ends up in the UDP endpoint's tables - see c03_world -
-        # so the multiplexed world of the quick tier sits on TunnelEndpoint(UDPEndpoint))
+        # (the multiplexed world of the quick tier sits on TunnelEndpoint(UDPEndpoint); the StatisticsEndpoint chain has a
+        # smaller world of its own)
         plans = [("udp", ["TunnelCommunity"], True),
                  ("tunnel", ["PlainCommunity", "PlainTwin", "DiscoveryCommunity", "DHTDiscoveryCommunity",
                              "HiddenTunnelCommunity", "PexCommunity", "IdentityCommunity", "AttestationCommunity"], False),
@@ -701,6 +995,30 @@ def run(tier, seed, replay=None):
         if len(ctx.cov["samples"]) < 3:
             ev = next(e for e in reversed(w.events) if e["op"] == "recv" and any(r["h"] for r in e["log"]))
             ctx.sample({"world": [chain, names], "delivery": {k: v for k, v in ev.items() if k not in ("head",)}})
+    # ---------------- history: table actions of the real node between batteries; the exit sockets' own receive path
+    if quick:
+        hplans = [("udp", ["HiddenTunnelCommunity+xbt"], "timeouts"), ("udp", ["TunnelCommunity+xipv8"], "removals"),
+                  ("tunnel", ["PlainCommunity", "HiddenTunnelCommunity+xall"], "walk")]
+    else:
+        hplans = [(chain, [cls + opt], fam) for fam in ("timeouts", "removals", "walk")
+                  for chain, cls, opt in (("udp", "HiddenTunnelCommunity", "+xbt"), ("udp", "TunnelCommunity", "+xipv8"),
+                                          ("tstats", "HiddenTunnelCommunity", "+xall"), ("disp", "TunnelCommunity", ""))]
+    hsegs = []
+    for chain, names, family in hplans:
+        w = rx.world(chain, names)
+        w.family, w.seg = family, 10 ** 9
+        rx.history(w, random.Random("%s-%s" % (seed, family)), family, quick)
+        hsegs += rx.add_world(w)
+        if not quick or family == hplans[-1][2] and names == hplans[-1][1]:
+            # (quick: the three history traces are validated by one TLC run)
+            rx.jobs.append((hsegs, specs.pool.submit(rx.tlc_validate, hsegs)))
+            hsegs = []
+        rx.apply_done("receive_trace")
+        for ev in w.events:
+            if ev["op"] in ("recv", "xrecv"):
+                ctx.nontrivial(("hx", chain, tuple(names), family, ev["op"], ev["len"], tuple(ev["head"]),
+                                ev.get("enc"), ev.get("fam")))
+    rx.history_vacuity()
     from ..vloop import uninstall
     uninstall()                      # wall clock back (Ctx measures real time)
 
